@@ -235,6 +235,18 @@ func main() {
 		{"payload-array", "envelope", func(s *script) { s.mutate = func([]byte) []byte { return []byte("[]") } }, true},
 		{"payload-not-json", "envelope", func(s *script) { s.mutate = func([]byte) []byte { return []byte("hello") } }, true},
 		{"payload-type", "envelope", func(s *script) { s.cty = "application/json" }, true},
+		// the signed payload is the requested document FOLLOWED by something: a second document, a dangling member, bytes
+		{"payload-followed-by-second-document", "envelope", func(s *script) {
+			s.mutate = func(b []byte) []byte {
+				return append(append([]byte{}, b...), []byte(`{"targetArtifact":{"mediaType":"x/y","digest":"sha256:`+strings.Repeat("0", 64)+`","size":1}}`)...)
+			}
+		}, true},
+		{"payload-followed-by-member", "envelope", func(s *script) {
+			s.mutate = func(b []byte) []byte { return append(append([]byte{}, b...), []byte(`,"extra":{"a":1}}`)...) }
+		}, true},
+		{"payload-followed-by-bytes", "envelope", func(s *script) {
+			s.mutate = func(b []byte) []byte { return append(append([]byte{}, b...), []byte(" trailing-bytes")...) }
+		}, true},
 		// near misses of the Notary payload type: a verifier compares the type exactly, so each of these is another type
 		{"payload-type-with-parameter", "envelope", func(s *script) { s.cty = lib.PayloadType + "; charset=utf-8" }, true},
 		{"payload-type-with-version-parameter", "envelope", func(s *script) { s.cty = lib.PayloadType + ";version=2" }, true},
@@ -342,7 +354,7 @@ func main() {
 		content := []byte(fmt.Sprintf("c18 content %d", ci%7))
 		desc := ocispec.Descriptor{MediaType: "application/vnd.example.thing", Digest: digest.FromBytes(content), Size: int64(len(content))}
 		if c.annots {
-			desc.Annotations = map[string]string{"k1": "v1", "k2": "v2"}
+			desc.Annotations = map[string]string{"k1": "v1", "k2": "v2", "org.example.reviewed": ""} // (an empty value is a value)
 		}
 		ps, err := signer.NewPluginSigner(sc, "key-1", map[string]string{"cfg": "v"})
 		if err != nil {
